@@ -9,10 +9,11 @@ CONSTANTS
   NABad = {"none", "sig"}
   CUFields = {"ok"}
   NAFields = {"ok"}
-  Funds = {"ok", "spent"}
+  Funds = {"ok", "spent", "utxofault"}
   Signers = {"n1", "n2"}
   MaxMsgs = 4
+  Chain = TRUE
 VIEW MCView
-INVARIANTS TypeOK NodeHasChannel PolicyHasChannel RelayedAuthentic ZombieNotInGraph ClosedIsZombie StashOnlyUpdates
-PROPERTIES ZombieOnlyByOwner OnlyAuthenticFresh NoRelayWithoutApply PolicyMonotone NodeMonotone ChannelsStay
+INVARIANTS TypeOK NodeHasChannel PolicyHasChannel RelayedAuthentic ZombieNotInGraph ClosedNotInGraph StashOnlyUpdates
+PROPERTIES ZombieOnlyByOwner OnlyAuthenticFresh NoRelayWithoutApply RelayOnlyApplied PolicyMonotone NodeMonotone ChannelsStay
 CHECK_DEADLOCK FALSE
